@@ -185,6 +185,7 @@ type whistOpts struct {
 	Dirty                  bool // leave uncommitted row edits in the working set of every branch
 	TypeChange             bool // MODIFY COLUMN int -> bigint / varchar(200) -> varchar(300)
 	UniqueIdx              bool // some secondary indexes are UNIQUE (their name starts with "u")
+	RenameCol              bool // RENAME COLUMN, also combined with a type widening / default change / index on the same column
 }
 
 func genWHist(r *rand.Rand, db string, o whistOpts) *whist {
@@ -230,7 +231,11 @@ func genWHist(r *rand.Rand, db string, o whistOpts) *whist {
 		names := w.S.names()
 		ed := editable(w)
 		pick := func(l []string) string { return l[r.Intn(len(l))] }
-		switch k := r.Intn(10); {
+		k := r.Intn(10)
+		if o.RenameCol && r.Intn(4) == 0 {
+			k = 9 // column rename / retype family more often (C32)
+		}
+		switch {
 		case k == 0 || len(names) == 0:
 			newTable(w)
 		case k == 1 && len(names) > 1:
@@ -354,6 +359,80 @@ func genWHist(r *rand.Rand, db string, o whistOpts) *whist {
 				add(fmt.Sprintf("alter table `%s` alter column `%s` set default %s", n, col.Name, lit))
 			}
 			h.Kinds["change-default"]++
+		case k == 9 && o.RenameCol && len(ed) > 0: // rename / retype / both on the same column (tags are kept by dolt)
+			n := pick(ed)
+			t := w.S[n]
+			if len(t.Cols) == 0 {
+				return
+			}
+			// prefer a column that was already renamed or retyped, so that both changes meet on one column across commits
+			var pref []int
+			for i, c := range t.Cols {
+				if strings.HasPrefix(c.Name, "r") || c.Type == "bigint" || c.Type == "varchar(300)" {
+					pref = append(pref, i)
+				}
+			}
+			i := r.Intn(len(t.Cols))
+			if len(pref) > 0 && r.Intn(2) == 0 {
+				i = pref[r.Intn(len(pref))]
+			}
+			wider := map[string]string{"int": "bigint", "varchar(200)": "varchar(300)"}[t.Cols[i].Type]
+			rename := func() string {
+				old := t.Cols[i].Name
+				nn := fmt.Sprintf("r%d", nextCol)
+				nextCol++
+				t.Cols[i].Name = nn
+				for in, ic := range w.M[n].Idx {
+					if ic == old {
+						w.M[n].Idx[in] = nn
+					}
+				}
+				if d, ok := w.M[n].Defaults[old]; ok {
+					delete(w.M[n].Defaults, old)
+					w.M[n].Defaults[nn] = d
+				}
+				h.Kinds["rename-column"]++
+				return old
+			}
+			retype := func() {
+				t.Cols[i].Type = wider
+				delete(w.M[n].Defaults, t.Cols[i].Name) // MODIFY without a DEFAULT clause drops the default
+				h.Kinds["type-change"]++
+			}
+			switch sub := r.Intn(6); {
+			case sub == 0 && wider != "":
+				retype()
+				add(fmt.Sprintf("alter table `%s` modify column `%s` %s", n, t.Cols[i].Name, wider))
+			case sub == 1 && wider != "": // both in one statement
+				old := rename()
+				retype()
+				add(fmt.Sprintf("alter table `%s` change column `%s` `%s` %s", n, old, t.Cols[i].Name, wider))
+				h.Kinds["rename+retype-same-commit"]++
+			case sub == 2 && wider != "": // both, two statements
+				old := rename()
+				add(fmt.Sprintf("alter table `%s` rename column `%s` to `%s`", n, old, t.Cols[i].Name))
+				retype()
+				add(fmt.Sprintf("alter table `%s` modify column `%s` %s", n, t.Cols[i].Name, wider))
+				h.Kinds["rename+retype-same-commit"]++
+			case sub == 3 && t.Cols[i].Type != "text": // rename + index on the renamed column
+				old := rename()
+				add(fmt.Sprintf("alter table `%s` rename column `%s` to `%s`", n, old, t.Cols[i].Name))
+				in := fmt.Sprintf("i%d", nextIdx)
+				nextIdx++
+				w.M[n].Idx[in] = t.Cols[i].Name
+				add(fmt.Sprintf("create index `%s` on `%s` (`%s`)", in, n, t.Cols[i].Name))
+				h.Kinds["rename+index"]++
+			case sub == 4 && t.Cols[i].Type != "text" && o.Defaults: // rename + default change
+				old := rename()
+				add(fmt.Sprintf("alter table `%s` rename column `%s` to `%s`", n, old, t.Cols[i].Name))
+				lit := sqlrig.SQLLit(g.value(t.Cols[i], false))
+				w.M[n].Defaults[t.Cols[i].Name] = lit
+				add(fmt.Sprintf("alter table `%s` alter column `%s` set default %s", n, t.Cols[i].Name, lit))
+				h.Kinds["rename+default"]++
+			default:
+				old := rename()
+				add(fmt.Sprintf("alter table `%s` rename column `%s` to `%s`", n, old, t.Cols[i].Name))
+			}
 		case k == 9 && o.TypeChange && len(ed) > 0: // widen a column type in place (position and values unchanged)
 			n := pick(ed)
 			t := w.S[n]
@@ -637,7 +716,7 @@ func c32(c *rig.Ctx) {
 			return
 		}
 		r := c.SubRand("c32", i)
-		h := genWHist(r, fmt.Sprintf("c32_%d", i), whistOpts{MinCommits: 3, MaxCommits: 6, PKChange: true, Indexes: true, Defaults: true, Hostile: true})
+		h := genWHist(r, fmt.Sprintf("c32_%d", i), whistOpts{MinCommits: 3, MaxCommits: 6, PKChange: true, Indexes: true, Defaults: true, Hostile: true, RenameCol: true})
 		c.Case(fmt.Sprintf("c32/%d", i), map[string]any{"db": h.DB, "script": sqls(h.Steps)})
 		if i < 3 {
 			c.Sample(map[string]any{"script": sqls(h.Steps), "checked": "all ordered pairs of its commits"})
@@ -654,6 +733,9 @@ func c32(c *rig.Ctx) {
 
 // defaultRe matches a DEFAULT clause of a SHOW CREATE TABLE column line (string or numeric literal).
 var defaultRe = regexp.MustCompile(`(?s) DEFAULT (?:'(?:[^'\\]|\\.|'')*'|[-0-9.]+)`)
+
+// colTypeRe matches the type of a SHOW CREATE TABLE column line ("  `name` bigint" / "varchar(300)").
+var colTypeRe = regexp.MustCompile("(?m)^(  `[^`]+`) [a-z]+(\\(\\d+\\))?")
 
 func isHostile(s string) bool {
 	return strings.ContainsAny(s, "\"\\\n\r\t\x01\x1a\x7f") || strings.ContainsAny(s, "é日😀") || strings.Contains(s, "''")
@@ -981,7 +1063,7 @@ func c32Pair(c *rig.Ctx, x *sqlrig.Session, h *whist, a, b, pairNo int, st *tall
 		if err != nil {
 			viol("c32/patch-roundtrip/rows-error", fmt.Sprintf("table %s: %v", tn, err), a, b, map[string]any{"patch": stmts})
 		} else if g, w := strings.Join(r.Sorted(), "\n"), strings.Join(tb.SortedRows(), "\n"); g != w {
-			viol(classifyRowMismatch(r, tb, B.W.M[tn]), fmt.Sprintf("table %s after replaying dolt_patch(A,B) on A differs from B: got %q want %q", tn, r.Sorted(), tb.SortedRows()), a, b, map[string]any{"patch": stmts})
+			viol(classifyRowMismatch(r, tb, B.W.M[tn], A.W.S[A.W.byID(B.W.M[tn].ID)], stmts), fmt.Sprintf("table %s after replaying dolt_patch(A,B) on A differs from B: got %q want %q", tn, r.Sorted(), tb.SortedRows()), a, b, map[string]any{"patch": stmts})
 		}
 		sw, err1 := x.Query("show create table `" + tn + "`")
 		sb, err2 := x.Query(fmt.Sprintf("show create table `%s/%s`.`%s`", h.DB, B.Hash, tn))
@@ -1001,6 +1083,7 @@ func c32Pair(c *rig.Ctx, x *sqlrig.Session, h *whist, a, b, pairNo int, st *tall
 				return strings.Join(out, "\n")
 			}
 			gd, wd := defaultRe.ReplaceAllString(g, ""), defaultRe.ReplaceAllString(w, "")
+			gt, wt := colTypeRe.ReplaceAllString(gd, "$1 T"), colTypeRe.ReplaceAllString(wd, "$1 T")
 			switch {
 			case norm(gl) == norm(wl):
 				key = "c32/patch-roundtrip/schema/column-order"
@@ -1008,6 +1091,12 @@ func c32Pair(c *rig.Ctx, x *sqlrig.Session, h *whist, a, b, pairNo int, st *tall
 				key = "c32/patch-roundtrip/schema/column-default"
 			case norm(strings.Split(gd, "\n")) == norm(strings.Split(wd, "\n")):
 				key = "c32/patch-roundtrip/schema/column-order+default"
+			case colTypeRe.ReplaceAllString(g, "$1 T") == colTypeRe.ReplaceAllString(w, "$1 T"):
+				key = "c32/patch-roundtrip/schema/column-type" // same columns, names, defaults, keys - only a column's TYPE differs
+			case gt == wt:
+				key = "c32/patch-roundtrip/schema/column-type+default"
+			case norm(strings.Split(gt, "\n")) == norm(strings.Split(wt, "\n")):
+				key = "c32/patch-roundtrip/schema/column-type+order"
 			}
 			viol(key, fmt.Sprintf("SHOW CREATE TABLE %s after replaying dolt_patch(A,B) on A differs from B's", tn), a, b, map[string]any{"got": g, "want": w, "patch": stmts})
 		}
@@ -1018,12 +1107,34 @@ func c32Pair(c *rig.Ctx, x *sqlrig.Session, h *whist, a, b, pairNo int, st *tall
 // classifyRowMismatch names the class of a row mismatch after a patch replay: when every differing cell is "B holds NULL,
 // the replayed table holds the column's DEFAULT" the class is rows/null-vs-added-default (ADD COLUMN ... DEFAULT fills the
 // existing rows and the patch has no UPDATE ... = NULL for them); everything else is the generic class.
-func classifyRowMismatch(got *sqlrig.Rows, tb *sqlrig.Table, m *tmeta) string {
+func classifyRowMismatch(got *sqlrig.Rows, tb *sqlrig.Table, m *tmeta, ta *sqlrig.Table, patch []string) string {
 	const generic = "c32/patch-roundtrip/rows"
 	if len(got.Data) != len(tb.Rows) {
 		return generic
 	}
-	differ := 0
+	inA := map[string]bool{}
+	if ta != nil {
+		for _, c := range ta.Cols {
+			inA[c.Name] = true
+		}
+	}
+	differ, addedDefault, renamedNull, unfilled := 0, 0, 0, 0
+	hasUpdate := func(pk int64) bool {
+		for _, st := range patch {
+			if strings.HasPrefix(st, "UPDATE `"+tb.Name+"` ") && strings.HasSuffix(st, fmt.Sprintf(" WHERE `pk`=%d;", pk)) {
+				return true
+			}
+		}
+		return false
+	}
+	added := func(col string) bool {
+		for _, st := range patch {
+			if strings.HasPrefix(st, "ALTER TABLE `"+tb.Name+"` ADD `"+col+"` ") {
+				return true
+			}
+		}
+		return false
+	}
 	for _, row := range got.Data {
 		var pk int64
 		if _, err := fmt.Sscan(row[0], &pk); err != nil {
@@ -1039,15 +1150,38 @@ func classifyRowMismatch(got *sqlrig.Rows, tb *sqlrig.Table, m *tmeta) string {
 				continue
 			}
 			differ++
-			if w != sqlrig.Null || m.Defaults[tb.Cols[i].Name] == "" || sqlrig.SQLLit(g) != m.Defaults[tb.Cols[i].Name] {
+			col := tb.Cols[i].Name
+			switch {
+			case w != sqlrig.Null && g == sqlrig.Null && ta != nil && !inA[col] && ta.Rows[pk] != nil && added(col) && !hasUpdate(pk):
+				// the patch re-creates the column (DROP old / ADD new: different column for dolt) but the stored rows of A and B are
+				// byte-identical, so the row is not in the diff and gets no UPDATE: the re-added column stays NULL
+				unfilled++
+			case w != sqlrig.Null:
+				return generic
+			case m.Defaults[col] != "" && sqlrig.SQLLit(g) == m.Defaults[col]:
+				addedDefault++
+			case ta != nil && !inA[col] && ta.Rows[pk] != nil:
+				// B holds NULL in a column that has another name in A and the row exists in A: the patch renames the column but
+				// has no UPDATE ... = NULL (the cell change is computed by column NAME, so from-value "absent" == to-value NULL)
+				renamedNull++
+			default:
 				return generic
 			}
 		}
 	}
-	if differ == 0 {
+	switch {
+	case differ == 0:
 		return generic
+	case unfilled == differ:
+		return generic + "/unfilled-readded-column"
+	case unfilled > 0:
+		return generic + "/unfilled-readded-column+other-null-class"
+	case renamedNull == 0:
+		return generic + "/null-vs-added-default"
+	case addedDefault == 0:
+		return generic + "/null-in-renamed-column"
 	}
-	return generic + "/null-vs-added-default"
+	return generic + "/null-in-renamed-column+added-default"
 }
 
 // c32FindingClass lists the violation classes that are precise enough to be judged (and listed as known findings)
@@ -1060,6 +1194,12 @@ var c32FindingClass = map[string]bool{
 	"c32/patch-roundtrip/statement-error/index-same-columns":             true,
 	"c32/patch-roundtrip/statement-error/drop-index-after-drop-column":   true,
 	"c32/patch-roundtrip/statement-error/drop-index-uses-old-table-name": true,
+	// across a RENAME COLUMN the patch has no UPDATE for a cell that became NULL (cell changes are computed by column name)
+	"c32/patch-roundtrip/rows/null-in-renamed-column":               true,
+	"c32/patch-roundtrip/rows/null-in-renamed-column+added-default": true,
+	// DROP old + ADD new column while the stored rows are byte-identical: existing rows get no UPDATE for the new column
+	"c32/patch-roundtrip/rows/unfilled-readded-column":                  true,
+	"c32/patch-roundtrip/rows/unfilled-readded-column+other-null-class": true,
 }
 
 // columnDistinct reports whether the non-NULL values of a column are pairwise distinct (a UNIQUE index can be built).
